@@ -157,24 +157,8 @@ def check(ctx):
                    "operator spelling %r maps to %s, its meaning is ast.%s" % (sp, ops.get(sp), want))
     extra = sorted(set(ops) - set(OPERATORS))
     ctx.decide(not extra, "C12-R2", mod.cls("BinaryInfixOperand"), SEL, "operator table", "no undocumented operator spellings", "", "undocumented operator spellings %s" % extra)
-    # regex operator shape
-    fn = ctx.py.func(SEL, "RegexInfixOperand.ast")
-    calls = [n for n in walk_no_nested(fn) if isinstance(n, ast.Call) and call_name(n) == "ast.Call"]
-    ok = False
-    why = "ast.Call(...) not found"
-    if calls:
-        c = calls[0]
-        f = kwarg(c, "func")
-        args = kwarg(c, "args")
-        cmpn = [n for n in walk_no_nested(fn) if isinstance(n, ast.Call) and call_name(n) == "ast.Compare"]
-        is_match = f is not None and "RE_MODULE" in src(f) and "'match'" in src(f).replace('"', "'")
-        order = isinstance(args, ast.List) and [dotted(e) for e in args.elts] == ["pattern", "string"]
-        pat_def = any(isinstance(n, ast.Assign) and dotted(n.targets[0]) == "pattern" and "tokens[2]" in src(n.value) for n in walk_no_nested(fn))
-        str_def = any(isinstance(n, ast.Assign) and dotted(n.targets[0]) == "string" and "tokens[0]" in src(n.value) for n in walk_no_nested(fn))
-        isnot = bool(cmpn) and "ast.IsNot()" in src(cmpn[0]) and "'None'" in src(cmpn[0]).replace('"', "'")
-        ok = is_match and order and pat_def and str_def and isnot
-        why = "match=%s argument order (pattern, string)=%s pattern<-tokens[2]=%s string<-tokens[0]=%s `is not None`=%s" % (is_match, order, pat_def, str_def, isnot)
-    ctx.decide(ok, "C12-R2", fn, SEL, "RegexInfixOperand.ast", "=~ is re.match(pattern, string) is not None", "", why)
+    # regex operator shape: evaluated on model tokens
+    _regex_by_evaluation(ctx)
 
     # ---------------- R3 -----------------------------------------------------------------------
     init = ctx.py.func(SEL, "parse_selection._initialize")
@@ -583,3 +567,60 @@ def _r4_by_evaluation(ctx):
         ctx.holds("C12-R4", fn0, SEL, "InListCondition.__init__", "a keyword without a value is refused", "raises %s" % e.exc[:40])
     except PUnsupported as e:
         ctx.undecided("C12-R4", fn0, SEL, "InListCondition.__init__", "a keyword without a value is refused", "not evaluable: %s" % e)
+
+
+def _regex_by_evaluation(ctx):
+    """RegexInfixOperand: `field =~ pattern` must become  re.match(pattern, field) is not None  - __init__ and ast() evaluated on model tokens."""
+    from ..tensym import TenSym, Obj, Raised
+    from ..pysym import Unsupported as PUnsupported
+    fn = ctx.py.func(SEL, "RegexInfixOperand.ast")
+    init = ctx.py.func(SEL, "RegexInfixOperand.__init__")
+
+    def tok(name, kind):
+        node = Obj(tag="ast of " + name)
+        return Obj(tag=name, _isa=(kind,), ast=lambda: node, node=node)
+
+    def mk(kind, fields):
+        def f(ev, call):
+            vals = {}
+            for k_, a_ in zip(fields, call.args):
+                vals[k_] = ev.ex(a_)
+            for k in call.keywords:
+                vals[k.arg] = ev.ex(k.value)
+            return Obj(tag=kind, kind=kind, **vals)
+        return f
+    models = {"ast.Compare": mk("Compare", ("left", "ops", "comparators")), "ast.Call": mk("Call", ("func", "args", "keywords")), "ast.Attribute": mk("Attribute", ("value", "attr", "ctx")),
+              "ast.Name": mk("Name", ("id", "ctx")), "ast.Constant": mk("Constant", ("value",)), "ast.NameConstant": mk("Constant", ("value",)), "_check_n_tokens": lambda ev, call: None}
+    for op in ("Eq", "NotEq", "Is", "IsNot", "In", "NotIn", "Load"):
+        models["ast." + op] = mk(op, ())
+    remod = Obj(tag="RE_MODULE")
+    field, pat = tok("field", "Keyword"), tok("pattern", "Literal")
+    desc = "`field =~ pattern` -> re.match(pattern, field) is not None"
+    try:
+        me = Obj(tag="RegexInfixOperand")
+        TenSym({"RE_MODULE": remod}, models=dict(models)).run_fn(init, self=me, tokens=[[field, "=~", pat]])
+        n = TenSym({"RE_MODULE": remod}, models=dict(models)).run_fn(fn, self=me)
+    except PUnsupported as e:
+        ctx.undecided("C12-R2", fn, SEL, "RegexInfixOperand.ast", desc, "not evaluable: %s" % e)
+        return
+    g = lambda o, a_: getattr(o, a_, None)      # noqa: E731
+    left = g(n, "left")
+    func = g(left, "func")
+    args = g(left, "args")
+    ops = g(n, "ops")
+    comps = g(n, "comparators")
+    none_ = comps[0] if isinstance(comps, list) and len(comps) == 1 else None
+    is_none = (g(none_, "kind") == "Name" and g(none_, "id") == "None") or (g(none_, "kind") == "Constant" and hasattr(none_, "value") and none_.value is None)
+    checks = [("a comparison node", g(n, "kind") == "Compare"), ("left side is a call", g(left, "kind") == "Call"),
+              ("the function is the attribute `match` of the re module", g(func, "kind") == "Attribute" and g(func, "value") is remod and g(func, "attr") == "match"),
+              ("arguments (pattern, field) in that order", isinstance(args, list) and len(args) == 2 and args[0] is pat.node and args[1] is field.node),
+              ("operator `is not`", isinstance(ops, list) and [g(o, "kind") for o in ops] == ["IsNot"]), ("compared with None", bool(is_none))]
+    bad = [t for t, ok in checks if not ok]
+    ctx.decide(not bad, "C12-R2", fn, SEL, "RegexInfixOperand.ast", desc, "", "the node built fails: %s" % "; ".join(bad))
+    try:
+        TenSym({"RE_MODULE": remod}, models=dict(models)).run_fn(init, self=Obj(tag="x"), tokens=[[tok("lit", "Literal"), "=~", pat]])
+        ctx.violated("C12-R2", init, SEL, "RegexInfixOperand.__init__", "a literal on the left of =~ is refused", "`'abc' =~ 'a.*'` is accepted")
+    except Raised as e:
+        ctx.holds("C12-R2", init, SEL, "RegexInfixOperand.__init__", "a literal on the left of =~ is refused", "raises %s" % e.exc[:40])
+    except PUnsupported as e:
+        ctx.undecided("C12-R2", init, SEL, "RegexInfixOperand.__init__", "a literal on the left of =~ is refused", "not evaluable: %s" % e)
